@@ -1,6 +1,8 @@
 package govc
 
 import (
+	"os"
+	"runtime/debug"
 	"fmt"
 	"go/token"
 	"go/types"
@@ -142,6 +144,10 @@ type vcgen struct {
 
 	localCells    []string // terms of local variable cells that never escape to code outside this function
 	inClosureCall bool
+	stableCells   map[string]bool
+	skipArgClosures bool
+	localFields   map[string][]string // heap array -> struct variable cells whose fields no callee can write
+	clockFloor    string // ghost clock at the start of the call whose effects are being forgotten
 	curCall       *ssa.CallCommon // the call being translated (for call-site dependent summaries)
 	retTypes  map[string]types.Type
 	argTypes  map[string]types.Type
@@ -311,6 +317,9 @@ func (g *vcgen) set(name, term string) {
 }
 
 func (g *vcgen) havocVar(name string) string {
+	if t := os.Getenv("GOVC_TRACEHAVOC"); t != "" && strings.Contains(name, t) {
+		fmt.Fprintf(os.Stderr, "HAVOC %s in %s\n%s\n", name, g.u.Name, debug.Stack())
+	}
 	v := g.freshConst(name, g.varSort[name])
 	g.st.m[name] = v
 	return v
